@@ -104,6 +104,34 @@ CHECKS = {
         note="'Uniformly distributed in area' is statistical: decided only against gross deviations (6 sigma on 1e5/1e6 points per window), fine-scale uniformity and independence are not decided. numpy's Generator is trusted to be a deterministic function of its SeedSequence; harness/fakehealpy.py stands in for healpy (not installed) and is self-tested.",
         ref="DESIGN.md 3.3, 4 C16",
     ),
+    "C03": dict(
+        engine="Jackknife",
+        technique="TLC model checking of spec/Jackknife.tla (sample_patch_sum step by step, weight-product matrix, ratio, estimator applied sample-wise, n(z), histogram resampling with pool schedules, covariance) against a from-scratch recomputation without patch k on exact rationals; every terminal behaviour replayed on the real containers/catalogs; measured pair counts validated by TLC (JackknifeTrace); end-to-end comparison with re-measurement after physically deleting patch k",
+        text="TLC exhaustively checks JackknifeIsLeaveOneOut, FrameUnchanged, covariance well-formedness and termination over every pair-count array of small domains (2-4 patches, 1-3 bins, any sparsity), all weight-product and normalised-count cases (auto and cross), pseudo-random data for all defined CorrFunc member sets and redshift-estimate combinations, every per-patch histogram with every feasible pool schedule, and operation histories of 2-3 calls on the same objects. Every explored state is executed on real containers and catalogs and .data, each .samples row, .covariance and .error are compared with the model's exact rationals; end-to-end runs compare each product with a re-measurement after physically deleting patch k. Nine deviation configs must yield counterexamples, which are replayed on the code.",
+        note="Trusted: TLC, the driver's mapping of model integers to real objects, float comparison at 1e-9. Where the real statistic differs from the model (estimator / normalisation = C04's business) only the literal predicate 'sample k = the library's own statistic without patch k' decides. PSD-ness is a numeric eigvalsh side condition.",
+        ref="DESIGN.md 3.5/3.6, 4 C03",
+    ),
+    "C11": dict(
+        engine="Persist",
+        technique="TLC model checking of spec/Persist.tla (write/read step machines of the five persistence paths over the enumerated structural case space, 15 deviation configs) + replay of every TLC terminal behaviour on the real to_file/from_file (to_files/from_files, Catalog(cache)) with projection of the real file onto the abstract file and a member-wise round-trip oracle",
+        text="Persist.tla models CorrFunc through HDF5 (group per member, sparse pair storage), Configuration through YAML (custom-edges branch vs regeneration from zmin/zmax/num_bins/method/cosmology), CorrData/RedshiftData/HistData through the fixed-width text triple (loadtxt shape rule, decimals surviving the width-10 format), patch Metadata through YAML and a Catalog through its cache directory as write and read step sequences over an abstract file. TLC checks RoundTrip for every member subset x auto x bins x patches x 13 count patterns (all-zero, sparse, cancelling, negative, NaN, +-inf), every method x closed x unit x scale list x z-range x num_bins x weighting x cosmology incl. modified configurations, every class x bins >= 1 x samples x value class, for a single write and a write over a prior object; each named deviation must yield a counterexample. Every enumerated behaviour (4.4k quick, 45k thorough) is executed on the real library: the real file must project onto the model's file and the object read back must equal the original member by member (NaN-aware, bit-exact; text values to the precision computed by the spec; sample() and scale angles identical).",
+        note="Each value class is instantiated by one concrete float (seeded variation in the thorough tier), behaviour assumed uniform within a class; h5py, PyYAML and numpy I/O are trusted; files are read back in the same process.",
+        ref="DESIGN.md 3.6, 4 C11",
+    ),
+    "C13": dict(
+        engine="Sky",
+        technique="TLC model checking of the symmetry invariants of spec/Sky.tla (ring shift, reflection, weight scale, catalog split) on every scenario; metamorphic replay of TLC scenarios on the real sphere: rigid placements incl. both poles and the RA wrap, random rotation, shuffled rows in several chunks, all centre permutations, weight factors, catalog split, data-derived inherited centres",
+        text="RotationInvariant, ReflectionInvariant, WeightScaling and SplitAdditive are invariants of the model's count function, checked by TLC for all scenarios of two small families; a family with 3+2(3) weighted objects supplies the scenarios that are realised. Each case (data from one scenario, randoms from another) is measured with crosscorrelate/autocorrelate untransformed and under 5 further rigid placements, one random rotation, two row shuffles (chunksize 2), every permutation of the centre list (jackknife samples must permute accordingly), weights x3 / x0.37, and a split of the unknown catalog (raw counts must add exactly); amplitudes, jackknife samples, covariance and the redshift estimate must agree to 1e-9 (entries that are undefined in one run - x/0 of a sample without random pairs - only have to stay degenerate). A dense case derives the centres from the data (patch index column), lets the other catalogs inherit them and rotates everything next to either pole.",
+        note="The continuous rotation group is sampled (six placements of the 5-deg lattice plus random rotations), not enumerated.",
+        ref="DESIGN.md 3.5, 4 C13",
+    ),
+    "C15": dict(
+        engine="Config",
+        technique="TLC model checking of spec/Config.tla (declarative parameter semantics vs an implementation-shaped operational model of create/modify/from_dict/to_dict/__eq__/angle conversion, 9 deviation configs); every enumerated history replayed on the real yaw.config classes with projection of the real objects onto the abstract state after each code step",
+        text="TLC enumerates every parameter record of the slice domains (all binning methods incl. custom/invalid edges, both closed sides, all 8 units + an unknown one, single/multiple/overlapping/invalid scales, 10 cosmology argument classes, zmin = 0, edges=None) together with every history of up to 2 (quick) / 3 (thorough) modifications of up to 2 / 3 parameters each, and proves that the step-by-step design returns exactly the configuration the merged parameters declare and rejects exactly the declared-invalid ones. Each of the ~8.7k / ~94k histories is executed on the real library and compared after every operation: edge formula per method and cosmology, exact end points, scales, cosmology, workers, the sub-calls, angles vs astropy r/D(z), == of equal-parameter twins, dict/YAML rebuild and bit-identity of the original. Deviation configs reproduce every defect of the code as found; each counterexample is replayed on the code.",
+        note="Edges are matched against the formula with tolerances (exact for linear/custom, 1e-9 logspace, 1e-6 comoving interior edges; end points exactly); expected distances come from astropy and an independent brentq inversion; values lie on a small grid (z in 1/100, Planck15, WMAP9, one unnamed FLRW, one float-returning CustomCosmology).",
+        ref="DESIGN.md 3.6, 4 C15",
+    ),
 }
 
 NOT_YET = "machinery for this property is not built yet in this round (planned, see DESIGN.md section 10)"
